@@ -28,6 +28,7 @@ type input struct {
 	Valid   bool             // must be accepted under every feature set containing Req
 	IfSeed  bool             // ... and only under the feature sets that accept the seed itself (over-long re-encodings)
 	Ref     []byte           // the module this input must behave like (the seed of an over-long re-encoding)
+	Reject  bool             // invalid by construction: must be rejected under every feature set
 	Req     api.CoreFeatures // (only with Valid)
 	AllFS   bool             // compile on the optimizing compiler under every accepting feature set
 	ArgSets int              // 1 = zero arguments only, 3 = zero + two boundary vectors
@@ -42,6 +43,7 @@ type plan struct {
 	fieldsC [][]field // lazily filled, see fields()
 	walkC   []*walker // lazily filled, see walk()
 	famC    []famMod  // lazily built, see family()
+	deadC   []famMod  // lazily built, see deadCode()
 	crash   map[string]bool // "seed/field/val" of single deviations that killed the process
 	rawMax  int
 	famStep int
@@ -103,6 +105,13 @@ var quickBytes = func() (m [256]bool) {
 
 func (p *plan) substValue(seedLen int, v byte) bool {
 	return p.tier == "thorough" || seedLen <= 56 || quickBytes[v]
+}
+
+func (p *plan) deadCode() []famMod {
+	if p.deadC == nil {
+		p.deadC = buildDeadCode()
+	}
+	return p.deadC
 }
 
 // pairSeedMax: seeds up to this size get the pairs of field deviations.
@@ -189,6 +198,13 @@ func (p *plan) allChunks(phase int) []chunk {
 		cs = append(cs, chunk{Cat: "dropdep", Seed: si})
 	}
 	cs = append(cs, chunk{Cat: "nodep"})
+	for lo := 0; lo < len(p.deadCode()); lo += p.famStep {
+		hi := lo + p.famStep
+		if hi > len(p.deadCode()) {
+			hi = len(p.deadCode())
+		}
+		cs = append(cs, chunk{Cat: "deadcode", A: lo, B: hi})
+	}
 	cs = append(cs, chunk{Cat: "hdr"})
 	cs = append(cs, chunk{Cat: "raw", A: -1})
 	for x := 0; x < 256; x++ {
@@ -323,6 +339,11 @@ func (p *plan) expand(c chunk, yield func(in input)) {
 				yield(input{B: b, Tag: fmt.Sprintf("retype:%s:%s@%d=%02x", s.Name, ts.Kind, ts.Off, v), ArgSets: 3})
 			}
 		}
+	case "deadcode":
+		for k := c.A; k < c.B; k++ {
+			m := p.deadCode()[k]
+			yield(input{B: m.B, Tag: "family:" + m.Name, Valid: !m.Reject, Req: m.Req, Reject: m.Reject, ArgSets: 1})
+		}
 	case "nodep":
 		for _, m := range buildNoDep() {
 			yield(input{B: m.B, Tag: "nodep:" + m.Name, ArgSets: 3})
@@ -382,6 +403,7 @@ func (p *plan) expand(c chunk, yield func(in input)) {
 		var list []struct {
 			Hex, Tag string
 			Ref      string
+			Reject   bool
 			Valid    bool
 			Req      uint64
 			ArgSets  int
@@ -393,7 +415,7 @@ func (p *plan) expand(c chunk, yield func(in input)) {
 			if as == 0 {
 				as = 3
 			}
-			in := input{B: raw, Tag: e.Tag, ArgSets: as, Valid: e.Valid, Req: api.CoreFeatures(e.Req)}
+			in := input{B: raw, Tag: e.Tag, ArgSets: as, Valid: e.Valid, Req: api.CoreFeatures(e.Req), Reject: e.Reject}
 			if e.Ref != "" {
 				in.Ref, _ = hex.DecodeString(e.Ref)
 			}
